@@ -697,16 +697,28 @@ func MergeXRefTables(tables ...*XRefTable) *XRefTable {
 // updates, following /Prev links. Returns tables in chronological order (oldest first).
 func (x *XRefParser) ParseAllXRefs() ([]*XRefTable, error) {
 	// Parse main XRef
-	mainTable, err := x.ParseXRefFromEOF()
+	mainOffset, err := x.FindXRef()
 	if err != nil {
-		return nil, err
+		return nil, fmt.Errorf("failed to find xref: %w", err)
+	}
+	mainTable, err := x.ParseXRef(mainOffset)
+	if err != nil {
+		return nil, fmt.Errorf("failed to parse xref: %w", err)
 	}
 
 	tables := []*XRefTable{mainTable}
 
-	// Parse previous XRefs
+	// Parse previous XRefs. A section is read once: a /Prev that leads back to
+	// a section already read would otherwise be followed forever
+	seen := map[int64]bool{mainOffset: true}
 	currentTable := mainTable
 	for {
+		if prev, ok := currentTable.Trailer.Get("Prev").(Int); ok {
+			if seen[int64(prev)] {
+				return nil, fmt.Errorf("the /Prev chain returns to the cross-reference section at %d", int64(prev))
+			}
+			seen[int64(prev)] = true
+		}
 		prevTable, err := x.ParsePrevXRef(currentTable)
 		if err != nil {
 			return nil, fmt.Errorf("failed to parse prev xref: %w", err)
